@@ -322,6 +322,16 @@ func extractSummary(r *Run, p *packages.Package, roles trackRoles, method string
 			}
 			return true
 		}
+		// s.F = insert(s.F, k): a helper of the package that puts k into the map it is handed (allocating it when nil) and
+		// hands the map back
+		if fn := calleeOf(info, call); fn != nil && lhsField != "" && len(call.Args) == 2 && recvField(call.Args[0]) == lhsField && isKeyedInsertHelper(p, fn) {
+			if g, ok := keyGuard(call.Args[1]); ok {
+				s.Effects = append(s.Effects, effect{g, lhsField, "+", call.Pos()})
+			} else {
+				s.Frame = append(s.Frame, lhsField+" written through "+fn.Name()+" with a key other than the operated one")
+			}
+			return true
+		}
 		// s.Set(k, v) — delegation to another mutator of the same owner on the same receiver
 		if sel, ok := call.Fun.(*ast.SelectorExpr); ok {
 			if id, ok := ast.Unparen(sel.X).(*ast.Ident); ok && info.Uses[id] == recv && len(call.Args) >= 1 {
@@ -1058,7 +1068,7 @@ func returnsOwnMake(p *packages.Package, fn *types.Func) bool {
 				ok = false
 				return true
 			}
-			if isNilIdent(info, x.Results[0]) {
+			if isNilIdent(info, x.Results[0]) || knownNilAt(info, fd, x, x.Results[0]) {
 				return true
 			}
 			if id, isID := ast.Unparen(x.Results[0]).(*ast.Ident); isID && made[info.Uses[id]] {
@@ -1070,4 +1080,82 @@ func returnsOwnMake(p *packages.Package, fn *types.Func) bool {
 		return true
 	})
 	return ok && any
+}
+
+// isKeyedInsertHelper: fn(m, k) only ever writes m[k], and each of its returns hands back m itself or a new map literal
+// whose only key is k (the nil case).
+func isKeyedInsertHelper(p *packages.Package, fn *types.Func) bool {
+	if fn.Pkg() != p.Types {
+		return false
+	}
+	info := p.TypesInfo
+	fd := FuncDecls(p)[declKeyOf(fn.Origin())]
+	if fd == nil || fd.Body == nil || fd.Type.Params == nil {
+		return false
+	}
+	var params []types.Object
+	for _, pl := range fd.Type.Params.List {
+		for _, nm := range pl.Names {
+			params = append(params, info.Defs[nm])
+		}
+	}
+	if len(params) != 2 {
+		return false
+	}
+	m, k := params[0], params[1]
+	if _, isMap := m.Type().Underlying().(*types.Map); !isMap {
+		return false
+	}
+	isObj := func(e ast.Expr, o types.Object) bool {
+		id, ok := ast.Unparen(e).(*ast.Ident)
+		return ok && info.Uses[id] == o
+	}
+	ok, inserts := true, false
+	ast.Inspect(fd.Body, func(n ast.Node) bool {
+		switch x := n.(type) {
+		case *ast.FuncLit:
+			ok = false
+		case *ast.AssignStmt:
+			for _, l := range x.Lhs {
+				ix, isIx := ast.Unparen(l).(*ast.IndexExpr)
+				if isIx && isObj(ix.X, m) && isObj(ix.Index, k) {
+					inserts = true
+					continue
+				}
+				ok = false
+			}
+		case *ast.IncDecStmt:
+			ok = false
+		case *ast.CallExpr:
+			if id, isID := ast.Unparen(x.Fun).(*ast.Ident); isID && (id.Name == "delete" || id.Name == "clear") {
+				ok = false
+			}
+		case *ast.ReturnStmt:
+			if len(x.Results) != 1 {
+				ok = false
+				return true
+			}
+			switch r := ast.Unparen(x.Results[0]).(type) {
+			case *ast.Ident:
+				if info.Uses[r] != m {
+					ok = false
+				}
+			case *ast.CompositeLit:
+				if len(r.Elts) != 1 {
+					ok = false
+					return true
+				}
+				kv, isKV := r.Elts[0].(*ast.KeyValueExpr)
+				if !isKV || !isObj(kv.Key, k) {
+					ok = false
+				} else {
+					inserts = true
+				}
+			default:
+				ok = false
+			}
+		}
+		return true
+	})
+	return ok && inserts
 }
